@@ -31,6 +31,7 @@ def _spin_contraction(spin, names=("ga", "gb")):
 
 
 PRE = {}
+ORDERS = {}
 
 
 def prior_calls(n):
@@ -114,6 +115,15 @@ def requests():
     i_, a_ = get_symbols("ia")
     out["amplitude_2_ph_pool_names"] = (e_pool.xreplace({so: i_, sv: a_}),
                                         "ia")
+    # ground-state density intermediates (recognised by the configured
+    # density / amplitude names): expansion and perturbation order
+    from adcgen.intermediates import Intermediates
+    itm = Intermediates().available
+    for nm_, idx_ in (("p0_2_oo", "ij"), ("p0_2_vv", "ab")):
+        pt = itm[nm_].tensor(indices=idx_, return_sympy=True)
+        ex_ = Expr(pt, target_idx=idx_, real=True).expand_intermediates()
+        out[f"expand_{nm_}"] = (ex_.sympy, idx_)
+        ORDERS[nm_] = Expr(pt, target_idx=idx_).terms[0].order
     # products of independently generated spin-labelled contractions: fresh
     # generic indices must be distinct whatever mixed alpha/beta requests
     # came before
@@ -137,7 +147,8 @@ def requests():
 
 prior_calls(spec["n_prior"])
 res, share = requests()
-payload = {"share": share, "results": {}, "pre_existing": PRE}
+payload = {"share": share, "results": {}, "pre_existing": PRE,
+           "orders": ORDERS}
 rename_back = spec.get("rename_back") or {}
 for name, (expr, tg) in res.items():
     tgs = get_symbols(tg)
